@@ -15,6 +15,7 @@ from pyvc.state import OutOfSubset, lazy_alloc
 from pyvc.seqs import as_symlist, safe_view, seq_view
 from pyvc.libmodels.polars_model import PolarsModel, DfObj
 from pyvc.libmodels.strings import StrModel
+from pyvc.libmodels.pydantic_model import PydanticCopyModel
 
 
 def _active(vv):
@@ -30,10 +31,17 @@ class DocumentInit(Contract):
     per-section header lists: section s; flat header list of a multi-section document: section 0); a header with its own widths keeps
     them."""
     target = "encode.py::RTFDocument.__init__"
-    serves = ["C08"]
-    models = [PolarsModel(), StrModel()]
+    serves = ["C08", "C14"]
+    models = [PydanticCopyModel(), PolarsModel(), StrModel()]
     variants = ["single", "multi_nested", "multi_flat", "multi_no_headers", "no_df"]
     max_paths = 4000
+    # C14: the constructor writes the document object itself and objects it created (copies of the components), never a component object
+    # handed in by the caller (origin CALLER): every store into a non-fresh object other than `self` is a frame obligation
+    frame = "strict"
+
+    @property
+    def modifies(self):
+        return [lambda I, st, ref, o, what: ref == self._v["me"]]
 
     def setup(self, c):
         var = c.variant
@@ -215,21 +223,22 @@ class DocumentInit(Contract):
                 return cl
             return inv
         own_section = lambda o: o.fields["_section"]
+        # loops in source order: 0 the comprehension of the local helper `_own` (a pure map: no specification), 1 sections, 2 nested outer,
+        # 3 nested inner, 4 flat (multi), 5 single-section headers
         if var == "single":
-            # loops in source order: 0 sections, 1 nested outer, 2 nested inner, 3 flat (multi), 4 single-section headers
-            self.loops = {4: LoopSpec(inv=inv_headers(own_section), havoc={"header": noop})}
+            self.loops = {5: LoopSpec(inv=inv_headers(own_section), havoc={"header": noop})}
         elif var == "multi_nested":
-            self.loops = {0: LoopSpec(inv=inv_sections, after=rehome_bodies, havoc={"section_body": noop, "section_df": noop}),
-                          1: LoopSpec(inv=inv_nested_outer, havoc={"section_headers": noop, "section_body": noop, "header": noop}),
-                          2: LoopSpec(inv=inv_headers(own_section), havoc={"header": noop})}
+            self.loops = {1: LoopSpec(inv=inv_sections, after=rehome_bodies, havoc={"section_body": noop, "section_df": noop}),
+                          2: LoopSpec(inv=inv_nested_outer, havoc={"section_headers": noop, "section_body": noop, "header": noop}),
+                          3: LoopSpec(inv=inv_headers(own_section), havoc={"header": noop})}
         elif var == "multi_flat":
-            self.loops = {0: LoopSpec(inv=inv_sections, after=rehome_bodies, havoc={"section_body": noop, "section_df": noop}),
-                          3: LoopSpec(inv=inv_headers(lambda o: IntVal(0)), havoc={"header": noop})}
+            self.loops = {1: LoopSpec(inv=inv_sections, after=rehome_bodies, havoc={"section_body": noop, "section_df": noop}),
+                          4: LoopSpec(inv=inv_headers(lambda o: IntVal(0)), havoc={"header": noop})}
         elif var == "multi_no_headers":
-            self.loops = {0: LoopSpec(inv=inv_sections, after=rehome_bodies, havoc={"section_body": noop, "section_df": noop})}
+            self.loops = {1: LoopSpec(inv=inv_sections, after=rehome_bodies, havoc={"section_body": noop, "section_df": noop})}
         else:
             self.loops = {}
-        self.loops_optional = {0, 1, 2, 3, 4}
+        self.loops_optional = {1, 2, 3, 4, 5}
 
     def ensures(self, c, out):
         v = c.v
